@@ -336,6 +336,18 @@ def coq_eval(imports, terms, shard_size=250, timeout=1200, tag="cases", preamble
     Returns a list of Python strings (None where evaluation failed)."""
     if not terms:
         return []
+    # the modules a case file imports must be up to date with the regenerated tables, whether or not they are in
+    # the closure of the property file (a stale .vo makes every evaluation fail with "inconsistent assumptions")
+    targets = []
+    for i in imports:
+        lib, mod = i.split(":")
+        d = {"YV": "theories", "YVGen": "gen", "YVProps": "props"}.get(lib)
+        if d and os.path.exists(os.path.join(COQ, d, mod + ".v")):
+            targets.append("%s/%s.vo" % (d, mod))
+    if targets and not os.environ.get("YV_NO_EVAL_MAKE"):
+        ok_mk, mk_log = coq_make(targets)
+        if not ok_mk:
+            raise RuntimeError("model files needed for evaluation do not build: %s\n%s" % (targets, mk_log[-1500:]))
     cdir = os.path.join(BUILD, "cases", tag)
     if os.path.isdir(cdir):
         shutil.rmtree(cdir)
@@ -362,6 +374,8 @@ def coq_eval(imports, terms, shard_size=250, timeout=1200, tag="cases", preamble
 
     with ThreadPoolExecutor(max_workers=NPROC) as ex:
         res = list(ex.map(run, range(len(chunks))))
+    if all(r is None for r in res) and len(terms) > 1 and tag[-6:] != "_retry":
+        raise RuntimeError("model evaluation failed for every shard of %s (see stderr): the model does not evaluate" % tag)
     out = []
     for ix, r in enumerate(res):
         if r is None:
